@@ -24,6 +24,7 @@ Qed.
 Section D.
   Variable md5 : bytes -> bytes.
   Variable cfg : config.
+  Variable fs : N -> bool.      (* allocation-failure oracle: the statements hold whatever fails *)
 
   (* what the duplicate test of addclientrq looks at *)
   Definition dup_window (r : request) : Z :=
@@ -36,9 +37,9 @@ Section D.
   Theorem addclientrq_dup st h c now rq h' r :
     get_rq st h = Some rq -> cache_entry st c (rq_rqid rq) = Some h' -> get_rq st h' = Some r ->
     is_dup rq r now = true ->
-    exists st' o, addclientrq md5 cfg st h c now = (false, st', o) /\
+    exists st' o, addclientrq md5 cfg fs st h c now = (false, st', o) /\
       match rq_replybuf r, rq_from r with
-      | Some b, Some c' => o = [OReply c' b]
+      | Some b, Some c' => o = [OReply c' b] \/ (fs 14 = true /\ o = [])
       | _, _ => o = []
       end.
   Proof.
@@ -50,7 +51,9 @@ Section D.
       { unfold newrqref. rewrite Hr. eapply get_rq_set_rq. exact Hr. }
       unfold sendreply. rewrite G. cbn [rq_from rq_set_refcount rq_replybuf rq_msg].
       destruct (rq_from r) as [c'|].
-      + rewrite Hb. eexists. eexists. split; reflexivity.
+      + rewrite Hb. destruct (fs 14) eqn:F14.
+        * eexists. eexists. split; [reflexivity|]. right. split; reflexivity.
+        * eexists. eexists. split; [reflexivity|]. left. reflexivity.
       + eexists. eexists. split; reflexivity.
     - eexists. eexists. split; [reflexivity|]. reflexivity.
   Qed.
@@ -59,7 +62,7 @@ Section D.
   Theorem addclientrq_new st h c now rq h' r :
     get_rq st h = Some rq -> cache_entry st c (rq_rqid rq) = Some h' -> get_rq st h' = Some r ->
     is_dup rq r now = false ->
-    exists st', addclientrq md5 cfg st h c now = (true, st', []).
+    exists st', addclientrq md5 cfg fs st h c now = (true, st', []).
   Proof.
     intros Hq Hc Hr Hd. unfold addclientrq. rewrite Hq. cbv zeta.
     unfold cache_entry in Hc. rewrite Hc, Hr.
@@ -68,7 +71,7 @@ Section D.
 
   Theorem addclientrq_first st h c now rq :
     get_rq st h = Some rq -> cache_entry st c (rq_rqid rq) = None ->
-    exists st', addclientrq md5 cfg st h c now = (true, st', []).
+    exists st', addclientrq md5 cfg fs st h c now = (true, st', []).
   Proof.
     intros Hq Hc. unfold addclientrq. rewrite Hq. cbv zeta.
     unfold cache_entry in Hc. rewrite Hc. eexists. reflexivity.
@@ -121,6 +124,7 @@ Section H.
   Variable md5 : bytes -> bytes.
   Variable rx : N -> bytes -> option (list (Z * Z)).
   Variable cfg : config.
+  Variable fs : N -> bool.
 
   Definition request_code (code : N) : bool :=
     (code =? Consts.RAD_Access_Request) || (code =? Consts.RAD_Status_Server) || (code =? Consts.RAD_Accounting_Request).
@@ -128,26 +132,29 @@ Section H.
   Theorem radsrv_dup st h c now rnd r0 msg rq h' r :
     get_rq st h = Some r0 ->
     buf2radmsg md5 (match rq_buf r0 with Some b => b | None => [] end) (cc_secret (clconf_of cfg c)) None = Some msg ->
-    m_mainvalid msg = false -> request_code (m_code msg) = true ->
+    fs 1 = false -> m_mainvalid msg = false -> request_code (m_code msg) = true ->
     let r1 := rq_set_ids (rq_set_msg (rq_set_buf r0 None) (Some msg)) (m_id msg) (m_auth msg) in
     let stp := purgedupcache cfg (set_rq (set_rq st h (rq_set_buf r0 None)) h r1) c now in
     get_rq stp h = Some rq -> cache_entry stp c (rq_rqid rq) = Some h' -> get_rq stp h' = Some r ->
     is_dup cfg rq r now = true ->
-    exists st', radsrv md5 rx cfg st h c now rnd =
-      (st', match rq_replybuf r, rq_from r with
-            | Some b, Some c' => [OReply c' b; ORet 1]
-            | _, _ => [ORet 1]
-            end).
+    exists st' o, radsrv md5 rx cfg fs st h c now rnd = (st', o) /\
+      match rq_replybuf r, rq_from r with
+      | Some b, Some c' => o = [OReply c' b; ORet 1] \/ (fs 14 = true /\ o = [ORet 1])
+      | _, _ => o = [ORet 1]
+      end.
   Proof.
-    intros H0 Hp Hv Hc r1 stp Hq He Hr Hd.
-    destruct (addclientrq_dup md5 cfg stp h c now rq h' r Hq He Hr Hd) as (st2 & o & Ha & Ho).
-    unfold radsrv. rewrite H0. cbv zeta. rewrite Hp, Hv.
+    intros H0 Hp F1 Hv Hc r1 stp Hq He Hr Hd.
+    destruct (addclientrq_dup md5 cfg fs stp h c now rq h' r Hq He Hr Hd) as (st2 & o & Ha & Ho).
+    unfold radsrv. rewrite H0. cbv zeta. rewrite F1, Hp, Hv.
     unfold request_code in Hc.
     assert (C1 : (m_code msg =? Consts.RAD_Disconnect_Request) || (m_code msg =? Consts.RAD_CoA_Request) = false).
     { unfold Consts.RAD_Disconnect_Request, Consts.RAD_CoA_Request, Consts.RAD_Access_Request, Consts.RAD_Status_Server, Consts.RAD_Accounting_Request in *. lia. }
     rewrite C1. rewrite Hc. cbn [negb].
     fold r1. fold stp. rewrite Ha. cbn [negb].
-    eexists. f_equal.
-    destruct (rq_replybuf r) as [b|]; [destruct (rq_from r) as [c'|]|]; rewrite Ho; reflexivity.
+    eexists. eexists. split; [reflexivity|].
+    destruct (rq_replybuf r) as [b|]; [destruct (rq_from r) as [c'|]|].
+    - destruct Ho as [-> | [F ->]]; [left; reflexivity | right; split; [exact F | reflexivity]].
+    - rewrite Ho. reflexivity.
+    - rewrite Ho. reflexivity.
   Qed.
 End H.
